@@ -6,6 +6,9 @@
       accepted or answered EEXIST (put) onto the key's path was really issued
       and accepted — no failure on the publication path turns into [Ok]
       ([C18_set_success_means_published], [C18_put_success_means_published]);
+      in the kernel model, with a fault at any call, a plain set that reports
+      success has bound the key to the source's inode, which still holds the
+      source's bytes ([C18_success_under_any_fault_is_real]);
     - leave the cache valid: whatever fails, anywhere, in any participant, a
       published value keeps its contents ([C18_faults_never_corrupt_published_contents],
       the interleaving theorem, whose oracles include arbitrary injected faults);
@@ -15,7 +18,7 @@
     documented exceptions aside) is established by the exhaustive single-fault
     enumeration against this model (vlib/c18.py). *)
 From Coq Require Import List NArith ZArith String Bool Arith.
-From Kismet Require Import FS.Fs FS.Prog Spec.Wp Ops.Ops Conc.Pool Conc.Effect Conc.Immut Proofs.NeverMasked.
+From Kismet Require Import Pure.Hash FS.Fs FS.Prog Spec.Wp Ops.Ops Conc.Pool Conc.Effect Conc.Immut Proofs.NeverMasked Seq.Plain Proofs.KvSeq.
 Import ListNotations.
 
 Theorem C18_set_success_means_published : forall cfg k v w o,
@@ -25,6 +28,25 @@ Proof. intros. apply (success_means_published _ (pubs_cache_set cfg k v)). Qed.
 Theorem C18_put_success_means_published : forall cfg k v w o,
   let '(r, _, _, tr) := run (cache_put cfg k v) w o in is_ok r = true -> mon_run p_step false tr = Some true.
 Proof. intros. apply (success_means_published _ (pubs_cache_put cfg k v)). Qed.
+
+(** ... and, in the kernel model, with a fault injected at ANY call of the run
+    (the oracle [o] is arbitrary): a plain set that reports success has really
+    bound the key's name to the inode its source named, and the file still holds
+    the source's bytes -- success is never reported for an effect that did not happen. *)
+Theorem C18_success_under_any_fault_is_real : forall cfg dir cap k v i0 D w o,
+  s_writer cfg = Some (FPlain dir cap) ->
+  plainp dir = true -> valid_name (k_name k) = true -> plainp v = true ->
+  (forall q, v <> dir ++ q) -> (forall q, dir <> v ++ q) ->
+  names_plain (w_fs w) -> name_of (w_fs w) v = Some i0 ->
+  data (w_fs w) i0 = Some D -> i0 < next_ino (w_fs w) ->
+  let '(r, w', _, _) := run (cache_set cfg k v) w o in
+  is_ok r = true -> name_of (w_fs w') (dir ++ [k_name k]) = Some i0 /\ data (w_fs w') i0 = Some D.
+Proof.
+  intros cfg dir cap k v i0 D w o Hw Hb Hn Hv Ho Ha Hpl Hv0 HD Hi.
+  pose proof (cache_set_binds cfg dir cap Hw k v Hb Hn Hv Ho Ha i0 w o Hpl Hv0) as H1.
+  pose proof (calm_run_keeps_data _ _ (Spec.Calm.cm_cache_set cfg k v) w o i0 D HD Hi) as H2.
+  destruct (run (cache_set cfg k v) w o) as [[[r w'] o'] tr]. intros Hok. split; [exact (H1 Hok)|exact H2].
+Qed.
 
 (** For arbitrary results, not only those a run of the model produces. *)
 Theorem C18_never_masked_all_responses : forall cfg k v, pubs (cache_set cfg k v) /\ pubs (cache_put cfg k v).
